@@ -87,6 +87,13 @@ def corpus_defs(tier):
     ])
     # --- adts: header field combinations x buffer lengths, recovered from finished files ---------
     d['adts'] = dict(trace='TraceMuxide', rand=[dict(gen='adts', n=0, rel='none', facets={'bytes': True, 'timing': False, 'tree': False, 'raw': False})])
+    # --- layout: all codec x audio x metadata x layout configurations; tree + raw facets --------
+    d['layout'] = dict(trace='TraceMuxide', rand=[dict(gen='layout', n=0, rel='meta', facets=F_ALL)])
+    d['fraginit'] = dict(trace='TraceFrag', rand=[dict(gen='fraginit', n=0, rel=None, facets=None)])
+    d['meta'] = dict(trace='TraceMuxide', mc=[
+        _mc({'From': 0, 'To': 60000 if q else 2932896, 'Stride': 1}, module='MCMeta', invariants=('RoundTrip', 'Monotone'), properties=()),
+    ] + ([_mc({'From': 0, 'To': 2932896, 'Stride': 97}, module='MCMeta', invariants=('RoundTrip',), properties=())] if q else []),
+        rand=[dict(gen='meta', n=0, rel=None, facets=None)])
     return d
 
 
